@@ -190,7 +190,7 @@ def record_one(job):
 
 
 def record(ctx):
-    n = 2500 if ctx.tier == "thorough" else 200
+    n = 4000 if ctx.tier == "thorough" else 200
     jobs = [{"id": i + 1, "seed": (ctx.seed * 999983 + i * 13 + 5) % (2 ** 31)} for i in range(n)]
     return pool_map(record_one, jobs, chunksize=max(1, n // 64))
 
